@@ -328,7 +328,6 @@ def _edges(rng, tier):
 def gen(rng, tier):
     yield from _gen_main(rng, tier)
     if tier == "thorough":
-        yield from _ws.mul(rng)
         yield from _sweep(rng)
     yield from _grid(rng, tier)
     yield from _huge(rng, tier)
